@@ -6,6 +6,7 @@
 import Spydr.Common.Proto
 import Spydr.Edif.ModelRead
 import Spydr.Edif.ModelWrite
+import Spydr.Edif.Fragment
 
 open Lean Spydr.Edif
 
@@ -161,6 +162,70 @@ def netlistOfJson (j : Json) : Except String CNetlist := do
   pure { data := ← dataOfJson (← j.getObjVal? "data"),
          libs := ← (← Spydr.Proto.getArr j "libraries").toList.mapM libOfJson, top := top }
 
+/-! decoding of abstract designs (for the fragment report of C05) -/
+
+def strOf (j : Json) : Except String Str := do pure (← j.getStr?).toList
+
+def anameOfJson (j : Json) : Except String AName := do
+  let a ← j.getArr?
+  match a.toList with
+  | [i, .null] => pure { ident := ← strOf i, orig := none }
+  | [i, o] => pure { ident := ← strOf i, orig := some (← strOf o) }
+  | _ => throw "name"
+
+def optNat (j : Json) : Except String (Option Nat) :=
+  match j with
+  | .null => pure none
+  | _ => do pure (some (← j.getNat?))
+
+def apropOfJson (j : Json) : Except String AProp := do
+  let nm ← anameOfJson (← j.getObjVal? "name")
+  let v ← j.getObjVal? "v"
+  match ← Spydr.Proto.getStr j "t" with
+  | "s" => pure ⟨nm, .str (← strOf v)⟩
+  | "b" => pure ⟨nm, .bool (← v.getBool?)⟩
+  | "i" => match v with
+    | .num n => if n.exponent == 0 then pure ⟨nm, .int n.mantissa⟩ else throw "non-integer"
+    | _ => throw "integer"
+  | t => throw s!"property type {t}"
+
+def apinOfJson (j : Json) : Except String APin := do
+  match (← j.getArr?).toList with
+  | [Json.str "p", pi, b, sp] => pure (.port (← pi.getNat?) (← optNat b) (← strOf sp))
+  | [Json.str "i", ii, pi, b, sp, isp] => pure (.inst (← ii.getNat?) (← pi.getNat?) (← optNat b) (← strOf sp) (← strOf isp))
+  | _ => throw "pin"
+
+def anetOfJson (j : Json) : Except String ANet := do
+  let pins ← (← Spydr.Proto.getArr j "pins").toList.mapM apinOfJson
+  match ← Spydr.Proto.getStr j "kind" with
+  | "scalar" => pure ⟨.scalar (← anameOfJson (← j.getObjVal? "name")), pins⟩
+  | "bit" => pure ⟨.bit (← strOf (← j.getObjVal? "bid")) (← strOf (← j.getObjVal? "bname")) (← Spydr.Proto.getNat j "idx"), pins⟩
+  | k => throw s!"net kind {k}"
+
+def acellOfJson (j : Json) : Except String ACell := do
+  let ports ← (← Spydr.Proto.getArr j "ports").toList.mapM fun p => do
+    pure ({ name := ← anameOfJson (← p.getObjVal? "name"), dir := ← dirOfJson (← p.getObjVal? "dir"),
+            array := ← optNat (← p.getObjVal? "array") } : APort)
+  let insts ← (← Spydr.Proto.getArr j "insts").toList.mapM fun i => do
+    pure ({ name := ← anameOfJson (← i.getObjVal? "name"), li := ← Spydr.Proto.getNat i "li", di := ← Spydr.Proto.getNat i "di",
+            viewSp := ← strOf (← i.getObjVal? "vsp"), cellSp := ← strOf (← i.getObjVal? "csp"),
+            libSp := ← strOf (← i.getObjVal? "lsp"),
+            props := ← (← Spydr.Proto.getArr i "props").toList.mapM apropOfJson } : AInst)
+  pure { name := ← anameOfJson (← j.getObjVal? "name"), view := ← strOf (← j.getObjVal? "view"), ports := ports, insts := insts,
+         nets := ← (← Spydr.Proto.getArr j "nets").toList.mapM anetOfJson }
+
+def adesignOfJson (j : Json) : Except String ADesign := do
+  let libs ← (← Spydr.Proto.getArr j "libs").toList.mapM fun l => do
+    pure ({ name := ← anameOfJson (← l.getObjVal? "name"),
+            cells := ← (← Spydr.Proto.getArr l "cells").toList.mapM acellOfJson } : ALib)
+  pure { name := ← anameOfJson (← j.getObjVal? "name"), libs := libs, top := ← anameOfJson (← j.getObjVal? "top"),
+         topLi := ← Spydr.Proto.getNat j "tli", topDi := ← Spydr.Proto.getNat j "tdi",
+         topCellSp := ← strOf (← j.getObjVal? "tcsp"), topLibSp := ← strOf (← j.getObjVal? "tlsp") }
+
+def clauseJson : Option String → Json
+  | none => Json.mkObj [("in", Json.bool true)]
+  | some c => Json.mkObj [("in", Json.bool false), ("clause", Json.str c)]
+
 def handle (st : Unit) (j : Json) : Except String (Unit × Json) := do
   let fn ← Spydr.Proto.getStr j "fn"
   match fn with
@@ -188,6 +253,14 @@ def handle (st : Unit) (j : Json) : Except String (Unit × Json) := do
         match readEdif cs with
         | .ok n' => pure (st, Json.mkObj [("ok", netlistJson n')])
         | .error e => pure (st, errJson e)
+  | "wf03" =>
+      -- decidable hypotheses of C03.edif_roundtrip / parse_compose_parse (wfNetClause_sound): first failing clause
+      let n ← netlistOfJson (← j.getObjVal? "net")
+      pure (st, clauseJson (wfNetClause n))
+  | "wf05" =>
+      -- decidable hypothesis of C05.edif_reader_spec / _kwcase (wfClause_sound): first failing clause
+      let d ← adesignOfJson (← j.getObjVal? "d")
+      pure (st, clauseJson (wfClause d))
   | _ => throw s!"unknown fn {fn}"
 
 end Spydr.Edif.Drv
